@@ -59,8 +59,8 @@ def explore_mix(profiles, tier, seed, native=True, dbg=True, miri=True, asan=Fal
             jobs.append(ex("miri", prof, max(1, n // 55), 55, per, seed, weight=10, timeout=1500 if quick else 7200))
         if asan:
             jobs.append(ex("asan", prof, (q_hist if quick else t_hist) // 6, steps, max(1, per // 2), seed, weight=3))
-        if memcheck and not quick:
-            jobs.append(ex("memcheck", prof, 400, steps, max(1, per // 2), seed, weight=5, timeout=3000))
+        if memcheck:
+            jobs.append(ex("memcheck", prof, 60 if quick else 400, steps, 1 if quick else max(1, per // 2), seed, weight=5, timeout=3000))
     if native:
         # long texts (far beyond the inline/boundary region the other runs dwell in)
         jobs.append(ex("native-rel", profiles[0], 60 if quick else 3000, 80, 4, seed + 41, extra=["--max-len", "200000"], weight=2, label="native-rel(big texts)"))
@@ -241,7 +241,9 @@ def plan_for(prop, tier, seed):
         jobs = [eng("native-rel", "panics", ["--shim", "shadow", "--rounds", 8 if quick else 400], 8, seed, weight=3),
                 eng("native-dbg", "panics", ["--shim", "shadow", "--rounds", 2 if quick else 40], 4, seed + 1, weight=3)]
         jobs += sharded("miri", "panics", ["--rounds", 1], 48 if quick else 12, seed + 2, **MT)
-        if not quick:
+        if quick:
+            jobs += sharded("memcheck", "panics", ["--rounds", 1], 4, seed + 3, mod=8, weight=5, timeout=3000)
+        else:
             jobs += [eng("memcheck", "panics", ["--rounds", 2], 4, seed + 3, weight=5, timeout=6000),
                      eng("asan", "panics", ["--rounds", 10], 4, seed + 4, weight=4)]
         jobs += [ex("native-rel", "errorpath", 500 if quick else 30000, 120, 4, seed + 5, weight=2)]
